@@ -9,7 +9,7 @@ import torch
 from torch import sigmoid, Tensor
 from torch.nn import Module
 
-from ..utils.transforms import _get_inv_param_transform, inv_sigmoid, inv_softplus
+from ..utils.transforms import _get_inv_param_transform, inv_sigmoid, inv_softplus, TRANSFORM_REGISTRY
 
 # define softplus here instead of using torch.nn.functional.softplus because the functional version can't be pickled
 softplus = torch.nn.Softplus()
@@ -46,11 +46,12 @@ class Interval(Module):
         self.register_buffer("lower_bound", lower_bound)
         self.register_buffer("upper_bound", upper_bound)
 
-        # The default inverse belongs to the default transform: when another transform is given without its inverse,
-        # the inverse is looked up in the transform registry (and must be specified for an unregistered transform)
-        for default_transform, default_inv_transform in ((sigmoid, inv_sigmoid), (softplus, inv_softplus)):
-            if inv_transform is default_inv_transform and transform is not None and transform is not default_transform:
-                inv_transform = None
+        # The default inverse belongs to the default transform: when a REGISTERED transform with another inverse is given
+        # without its inverse (e.g. transform=torch.exp), take the registered inverse instead of the default one
+        if inv_transform in (inv_sigmoid, inv_softplus):
+            registered_inverse = TRANSFORM_REGISTRY.get(transform, None) if callable(transform) else None
+            if registered_inverse is not None and registered_inverse is not inv_transform:
+                inv_transform = registered_inverse
 
         self._transform = transform
         self._inv_transform = inv_transform
